@@ -70,6 +70,10 @@ def run(rep):
     rep.guard(x13, rep, w)
     rep.guard(x14, rep, w)
     rep.guard(x15, rep, w)
+    rep.guard(x16, rep, w)
+    import c02
+    rep.guard(c02.p11, rep, w)    # the handler list must not be a buffer that overflows silently: a try statement deep in a recursion is legal
+    rep.guard(x18, rep, w)
     import c04_narrow
     rep.guard(c04_narrow.b4, rep, w)    # handler offsets that do not fit 16 bits are reported, not truncated (the handler would point into other code)
     import c15
@@ -432,12 +436,24 @@ def try_region_field(w):
                 for o in [rr.get('o'), rr.get('a'), rr.get('b')]:
                     pl = op_place(o) if isinstance(o, dict) else None
                     for e in (pl or {}).get('p') or []:
-                        if isinstance(e, dict) and 'n' in e and c01.base_type_before_last(g, {'l': pl['l'], 'p': pl['p'][:pl['p'].index(e) + 1]}) == 'yarel::compiler::Compiler':
-                            cands.setdefault(e['n'], set()).add(g.path)
+                        if isinstance(e, dict) and 'n' in e:
+                            owner = c01.base_type_before_last(g, {'l': pl['l'], 'p': pl['p'][:pl['p'].index(e) + 1]})
+                            if owner == 'yarel::compiler::Compiler' or (owner == 'yarel::compiler::Parser' and g.crate.tstr(e.get('t')) in ('usize', 'bool', 'u8', 'u16', 'u32', 'isize')):
+                                cands.setdefault((owner, e['n']), set()).add(g.path)
+    per_fn = {k: v for k, v in cands.items() if k[0] == 'yarel::compiler::Compiler'}
+    if len(per_fn) == 1:
+        cands = per_fn
+    else:
+        # kept on the parser itself (one value for all the functions being compiled): integer / bool fields the emitters of JumpFinally read
+        cands = {k: v for k, v in cands.items() if k[0] == 'yarel::compiler::Parser' and k[1] not in ('panic_mode',)} if not per_fn else per_fn
     if len(cands) != 1:
         raise Broken('C08', 'anchor', 'cannot identify the try-region field of Compiler (candidates: %s)' % sorted(cands))
-    (name, users), = cands.items()
+    ((owner, name), users), = cands.items()
+    _TRY_OWNER[id(w)] = owner
     return name, users
+
+
+_TRY_OWNER = {}
 
 
 def x8(rep, w):
@@ -464,6 +480,19 @@ def x8(rep, w):
         # saved + 1
         if pl is None:
             return False
+        # the arithmetic that produced the stored value, if it can be followed: `x + 1` raises, `x - 1` takes it back
+        cur = pl['l']
+        for _ in range(3):
+            ds = [s3 for b3 in f.blocks for s3 in b3['s'] if (s3.get('d') or {}).get('l') == cur and not s3['d'].get('p')]
+            if len(ds) != 1:
+                break
+            r3 = ds[0]['r']
+            if r3.get('rv') == 'bin' and (op_const(r3['b']) or {}).get('v') == 1:
+                return r3['op'].startswith('Add')
+            p3 = op_place(r3.get('o', {}) or {}) if r3.get('rv') == 'use' else None
+            if p3 is None:
+                break
+            cur = p3['l']
         for b in f.blocks:
             for s2 in b['s']:
                 rr = s2.get('r', {})
@@ -472,8 +501,23 @@ def x8(rep, w):
                         return True
         return False
     sets = [bi for bi, s_ in stores if is_raise(s_)]
+    def is_lowering(s_):
+        pl0 = op_place(s_['r'].get('o', {}) or {})
+        cur = pl0['l'] if pl0 else None
+        for _ in range(3):
+            ds = [s3 for b3 in f.blocks for s3 in b3['s'] if (s3.get('d') or {}).get('l') == cur and not s3['d'].get('p')] if cur is not None else []
+            if len(ds) != 1:
+                return False
+            r3 = ds[0]['r']
+            if r3.get('rv') == 'bin' and (op_const(r3['b']) or {}).get('v') == 1 and r3['op'].startswith('Sub') and fld in operand_fields(f, org, r3['a']):
+                return True
+            p3 = op_place(r3.get('o', {}) or {}) if r3.get('rv') == 'use' else None
+            if p3 is None:
+                return False
+            cur = p3['l']
+        return False
     restores = [bi for bi, s_ in stores if not is_raise(s_) and s_['r'].get('rv') == 'use' and op_const(s_['r'].get('o', {}) or {}) is None and fld in operand_fields(f, org, s_['r'].get('o', {}))
-                and not any('#bin' in q for q in org.get((op_place(s_['r'].get('o', {}) or {}) or {}).get('l'), ()))]
+                and (is_lowering(s_) or not any('#bin' in q for q in org.get((op_place(s_['r'].get('o', {}) or {}) or {}).get('l'), ())))]
     r.check(len(stores) == 2 and len(sets) == 1 and len(restores) == 1, 'try_statement writes Compiler.%s twice: raised, then the saved previous value' % fld,
             'try_statement writes Compiler.%s %d times (%d x raised, %d x saved value)' % (fld, len(stores), len(sets), len(restores)), f.loc())
     if len(sets) != 1 or len(restores) != 1:
@@ -493,6 +537,22 @@ def x8(rep, w):
             'registered -- a `return` compiled with the state raised elsewhere executes JumpFinally without a handler of its own' % (fld, len(body), len(other)), f.loc())
     r.check(len(after) >= 2, 'catch and finally blocks are compiled after the state was restored: %d site(s)' % len(after),
             'fewer than two block-compiling calls follow the restore of Compiler.%s' % fld, f.loc())
+    if _TRY_OWNER.get(id(w)) == 'yarel::compiler::Parser':
+        # one value shared by all functions under compilation: each function that opens a new function body (new_compiler) has to put
+        # it aside, clear it for the body and bring it back afterwards
+        openers = sorted(g.path for g in w.yarel.fns.values() if g.file.endswith('compiler.rs') and any(callee_name(t) == P + 'new_compiler' for _, t in g.calls()) and g.path != P + 'new_compiler')
+        for op_ in openers:
+            g = w.fns[op_]
+            if g.raw.get('name') == 'new':
+                continue      # the parser's own constructor: the field starts at its initial value
+            import cache
+            wr_ = [(o_, bi_) for (c_, o_, bi_) in cache.field_writes(g, origins(g)) if c_ == fld]
+            clears = [1 for (o_, bi_) in wr_ if o_ is None or (op_const(o_) or {}).get('v') == 0]
+            st_ = wr_
+            r.check(len(st_) >= 2 and bool(clears), '%s compiles its body with Parser.%s cleared and restores it' % (op_.rsplit('::', 1)[-1], fld),
+                    '%s starts a new function body while Parser.%s keeps the value of the enclosing function: a `return` in a lambda / initialiser written inside a try block '
+                    'compiles to JumpFinally and pops a handler that belongs to another function' % (op_, fld), g.loc())
+        return
     cn = w.require_fn('yarel::compiler::Compiler::new', 'C08')
     ok = False
     for b in cn.blocks:
@@ -776,3 +836,73 @@ def x15(rep, w):
                 'caller\'s handler, and the exception escapes to an outer handler' % f.path, f.loc())
     if n < 1:
         raise Broken('C08', 'anchor', 'no ObjFiber function pushes onto the handler list')
+
+
+def x16(rep, w, prop='C08'):
+    """an exception is delivered in one place: unwind_stack takes the innermost handler, discards the frames above the one that
+    registered it (the handler records that frame count) and only then jumps to the handler's address. Whoever else reads a
+    handler's entry address is delivering an exception on its own - without the frame bookkeeping, e.g. deciding "this handler is
+    mine" from the address alone, which is also true of an outer activation of the same function."""
+    r = rep.rule('X16', 'only unwind_stack (and the handler record itself) reads a handler\'s entry address', floor=1)
+    readers = set()
+    for g in w.yarel.fns.values():
+        for b in g.blocks:
+            for s_ in b['s']:
+                rr = s_.get('r', {})
+                pls = [rr.get('p')] if rr.get('rv') in ('ref', 'discr') else [op_place(o) for o in [rr.get('o'), rr.get('a'), rr.get('b')] + list(rr.get('ops') or []) if isinstance(o, dict)]
+                for pl in pls:
+                    if pl and any(isinstance(e, dict) and e.get('n') == 'catch_ip' for e in pl.get('p', [])):
+                        readers.add(g.path)
+            t = b['t']
+            for o in list(t.get('args') or []) + ([t.get('d')] if t.get('d') else []):
+                pl = op_place(o) if isinstance(o, dict) else None
+                if pl and any(isinstance(e, dict) and e.get('n') == 'catch_ip' for e in pl.get('p', [])):
+                    readers.add(g.path)
+    if not readers:
+        raise Broken(prop, 'anchor', 'no reader of ExcHandler.catch_ip found')
+    allowed = {p_ for p_ in readers if p_ == VM + 'unwind_stack' or p_.startswith('yarel::object::ExcHandler::') or p_.startswith('yarel::object::<impl') or 'object::ExcHandler as ' in p_ or
+               (p_.startswith('yarel::object::ObjFiber::') and 'push_exc_handler' in p_) or p_.startswith('yarel::debug::')}
+    for p_ in sorted(readers):
+        r.check(p_ in allowed, '%s may read catch_ip' % p_.replace('yarel::', ''), '%s reads the entry address of an exception handler: it delivers (or decides about delivering) an exception '
+                'outside unwind_stack, without discarding the frames between the raise and the handler\'s own frame' % p_, w.fns[p_].loc())
+
+
+def x18(rep, w, prop='C08'):
+    """whether the code at a handler's address runs with an exception in flight (a finally-only handler: EndFinally has to raise it
+    again) is decided where the exception is delivered: unwind_stack writes the flag from the handler it has just taken, on every
+    path - not the raise sites, of which there are several (throw, interpreter errors, failing natives) and one is easily forgotten."""
+    r = rep.rule('X18', 'unwind_stack sets the exception-in-flight state from the handler it delivers to, on every path', floor=1)
+    u = w.require_fn(VM + 'unwind_stack', prop)
+    ef = w.require_fn(VM + 'end_finally_impl', prop)
+    rd, _ = field_accesses(w, ef, 0)
+    flags = sorted(n for (o, n) in rd if o == 'yarel::vm::Vm' and w.yarel.tstr(next(fd['t'] for fd in w.yarel.adts['yarel::vm::Vm']['variants'][0]['fields'] if fd['n'] == n)) == 'bool')
+    if not flags:
+        r.ok('no VM-wide in-flight flag (state is kept per handler / per fiber)')
+        return
+    org = origins(u)
+    pops = [bi for bi, t in u.calls() if (callee_name(t) or '').endswith('ObjFiber::pop_exc_handler')]
+    for fl in flags:
+        stores = []
+        for bi in u.normal_blocks():
+            for s_ in u.blocks[bi]['s']:
+                d = s_.get('d') or {}
+                if d.get('p') and isinstance(d['p'][-1], dict) and d['p'][-1].get('n') == fl:
+                    pl = op_place((s_.get('r') or {}).get('o', {}) or {})
+                    from_handler = pl is not None and any(q[0][0] == 'call' for q in org.get(pl['l'], ()))
+                    stores.append((bi, from_handler))
+        good = {bi for bi, fh in stores if fh}
+        ok = bool(good) and bool(pops) and all(c01.all_paths_hit(u, p_, good | set(emit_error_returns(u))) for p_ in pops)
+        r.check(ok, 'unwind_stack writes %s from the delivered handler on every path' % fl,
+                'unwind_stack does not set `%s` from the handler it delivers to on every path (stores: %s): a raise site that forgets to set it - the error path of call_native, say - '
+                'runs a finally block and then carries on as if nothing had been thrown' % (fl, stores), u.loc())
+
+
+def emit_error_returns(u):
+    """blocks of u on which it returns an Err (no handler: the error leaves the run)"""
+    out = set()
+    for bi in u.normal_blocks():
+        for s_ in u.blocks[bi]['s']:
+            rr = s_.get('r', {})
+            if rr.get('rv') == 'agg' and rr.get('adt') == 'std::result::Result' and rr.get('v') == 'Err':
+                out.add(bi)
+    return out
